@@ -209,3 +209,52 @@ pub fn run_sequence(pool: &Pool, sc: &Value) -> Value {
     if let Some(a) = alone { after["alone_differs"] = json!(a["outcome"] != after["outcome"] || a["summaries"] != after["summaries"]); after["alone"] = a["outcome"].clone(); }
     after
 }
+
+/// C06: an empty layout built through one of the crate's construction paths (`via`: new / builder / parser) with its expiry
+/// placed relative to the real clock - `same_second`: {exp_ms, now_ms}: expiry and verification inside one wall-clock second,
+/// the expiry at exp_ms, the verification started at now_ms; otherwise `expires_in_ms` from now.
+pub fn run_expiry_via(pool: &Pool, sc: &Value) -> Value {
+    use chrono::{SecondsFormat, Timelike, Utc};
+    use in_toto::models::LayoutMetadataBuilder;
+    let via = sc["via"].as_str().unwrap_or("new");
+    let root = std::env::temp_dir().join(format!("verif-expiry-{}-{}", std::process::id(), Utc::now().timestamp_nanos_opt().unwrap_or(0)));
+    std::fs::create_dir_all(&root).unwrap();
+    let mut last = json!({"outcome": "not-run"});
+    for _try in 0..12 {
+        let same = sc.get("same_second").filter(|x| x.is_object());
+        let t0;
+        let expires = if let Some(ss) = same {
+            let want = ss["now_ms"].as_u64().unwrap().min(900) as u32;
+            loop {
+                let ms = Utc::now().nanosecond() / 1_000_000;
+                if ms >= want && ms < want + 50 { break; }
+                std::thread::sleep(std::time::Duration::from_millis(2));
+            }
+            t0 = Utc::now();
+            t0.with_nanosecond(0).unwrap() + chrono::Duration::milliseconds(ss["exp_ms"].as_i64().unwrap())
+        } else {
+            t0 = Utc::now();
+            t0 + chrono::Duration::milliseconds(sc["expires_in_ms"].as_i64().unwrap_or(-5000))
+        };
+        let layout = match via {
+            "builder" => LayoutMetadataBuilder::new().expires(expires).build().expect("builder"),
+            "parser" => {
+                // the document states the expiry with fractional seconds and a non-UTC offset
+                let text = expires.with_timezone(&chrono::FixedOffset::east_opt(3600).unwrap()).to_rfc3339_opts(SecondsFormat::Nanos, false);
+                let doc = json!({"_type":"layout","steps":[],"inspect":[],"keys":{},"expires":text,"readme":""});
+                match serde_json::from_str::<LayoutMetadata>(&doc.to_string()) { Ok(l) => l, Err(e) => return json!({"outcome":"unparsable-layout","message":e.to_string()}) }
+            }
+            _ => LayoutMetadata::new(expires, String::new(), HashMap::new(), vec![], vec![]),
+        };
+        let mb = Metablock::new(MetadataWrapper::Layout(layout), &[&pool.ed[0]]).expect("sign");
+        let mut ck: HashMap<KeyId, PublicKey> = HashMap::new();
+        ck.insert(KeyId::from_str(&pool.keyid(0)).unwrap(), pool.public(0));
+        let r = in_toto_verify(&mb, ck, root.to_str().unwrap(), None);
+        let t1 = Utc::now();
+        let o = match r { Ok(_) => "ok".to_string(), Err(e) => crate::err_name(&e) };
+        last = json!({"outcome": o, "outcomes": [o], "started_ms": t0.nanosecond() / 1_000_000, "ended_ms": t1.nanosecond() / 1_000_000});
+        if same.is_none() || t1.timestamp() == t0.timestamp() { break; }
+    }
+    let _ = std::fs::remove_dir_all(&root);
+    last
+}
